@@ -76,6 +76,11 @@ pub fn gen_walk(focus: &str, seed: u64) -> WalkScenario {
                     if let Cmd::Send { dst: Dst::Abs(i), .. } = c {
                         *i %= n;
                     }
+                    if let Cmd::Broadcast { dsts, .. } = c {
+                        for i in dsts.iter_mut() {
+                            *i %= n;
+                        }
+                    }
                 }
             };
             fix(&mut t.start);
